@@ -177,8 +177,7 @@ def validate(ctx, d, path, what, mode=None):
 def run_part(ctx):
     bindir = lib.cargo_build("h_wallet_t", [BIN])
     d = lib.stage_specs(ctx, AREA)
-    lib.sany(os.path.join(d, "Trace_Coins.tla"))
-    lib.sany(os.path.join(d, "MC_Coins.tla"))
+    lib.sany(os.path.join(d, "Trace_Coins.tla"))      # (MC_Coins is parsed by the TLC run below)
 
     # (1) the specification alone
     cfg = "MC_Coins_gen.cfg"
